@@ -43,11 +43,13 @@ GRID = [round(0.05 * i, 2) for i in range(0, 33) if (i % 10) != 0] + \
 def valid_response(rnd, gen):
     host = rnd.choice(["192.168.1.%d" % rnd.randint(2, 250), "10.0.0.7", "at.local", ""])
     serial = rnd.choice(["AA:BB:CC:%02X" % rnd.randint(0, 255), "C%d" % rnd.randint(1, 99), "",
-                         "séri€"])
+                         "séri€", "S 1 ", "S\n2"])
     aid = rnd.choice([str(rnd.randint(10000, 99999999)), "id-ü", ""])
     if gen == 4:
         return ",".join([host, serial, "AirTouch4", aid]).encode()
-    name = rnd.choice(["Home", "My, House", "a,b,,c", "Büro", "", "AirTouch5", "x" * 40])
+    name = rnd.choice(["Home", "My, House", "a,b,,c", "Büro", "", "AirTouch5", "x" * 40,
+                       # text is text: line feeds, tabs, blanks at either end
+                       "Line\nFeed", "Home\n", "\r\nHome", "tab\there", " padded ", "\n"])
     return ",".join([host, serial, "AirTouch5", aid, name]).encode()
 
 
